@@ -19,6 +19,7 @@ mod fam_emitter;
 mod fam_files;
 mod fam_options;
 mod fam_preproc;
+mod fam_snippet;
 mod fam_syntax;
 mod fam_wire;
 mod supervisor;
@@ -92,6 +93,7 @@ pub fn make_family(name: &str) -> Option<Box<dyn Family>> {
         "syntax" => Some(Box::new(fam_syntax::Syntax { mode: "ast" })),
         "syntax-visit" => Some(Box::new(fam_syntax::Syntax { mode: "visit" })),
         "syntax-spans" => Some(Box::new(fam_syntax::Syntax { mode: "spans" })),
+        "snippet" => Some(Box::new(fam_snippet::Snippet::default())),
         "wire" => Some(Box::new(fam_wire::Wire::default())),
         _ => None,
     }
